@@ -3,6 +3,7 @@ reuses the failed execution's version directory."""
 import os
 import sys
 
+sys.dont_write_bytecode = True
 sys.path.insert(0, os.path.dirname(os.path.abspath(__file__)))
 from _common import scratch_project, require, emit, run_replay, tail  # noqa: E402
 
@@ -54,14 +55,15 @@ def main():
         has_leftover = (rec_dir / "leftover.txt").exists()
         same_dir = rec_dir == failed_dir
     emit(
-        "F9", ["C08"], has_leftover or same_dir or "leftover.txt" in seen_at_start,
+        # judged by the effect (a leak), not by the directory's name
+        "F9", ["C08"], has_leftover or "leftover.txt" in seen_at_start,
         "two `cond run //:e` invocations through the real CLI entry point with time.time pinned to "
         "{}: the first fails after writing leftover.txt into its COND_OUT, the second succeeds".format(PINNED),
         "the second execution gets a directory that did not exist before and is empty (apart from "
         "Conductor's own logs) when the command starts",
-        "failed run's dir {}; recorded version dir {}; files present when the second command started: {}; "
-        "recorded version contains leftover.txt: {}".format(
-            failed_dir.name, rec_dir.name, seen_at_start, has_leftover),
+        "failed run's dir {}; recorded version dir {} (same directory: {}); files present when the second "
+        "command started: {}; recorded version contains leftover.txt: {}".format(
+            failed_dir.name, rec_dir.name, same_dir, seen_at_start, has_leftover),
     )
 
 
